@@ -83,6 +83,7 @@ def run(ctx, tier):
     for r, t in (("G1", "guard before deref of the handle"), ("G1b", "disengaged exit returns the documented default"),
                  ("D1", "delegation to the member of the same name; data/length of the same object"),
                  ("D4", "a wrapper with a scalar result returns the wrapped member's result itself"),
+                 ("D5", "a wrapper that parses the base itself returns a failed result when the base does not parse"),
                  ("D2", "pointer/length parameters are paired"),
                  ("D3", "free-function wrappers make exactly the calls of the C++ operation (input with its base)"),
                  ("F1", "alloc / access / free types agree"),
@@ -164,8 +165,51 @@ def check_returned_storage(ctx, fx):
     ctx.floor("G2", n, 90, "return statements of the C wrappers")
 
 
+def check_failed_base(ctx, fx):
+    """D5.  ada::parse(input, &base) is only defined for a base that parsed; the C++ caller cannot even form the pointer
+    otherwise.  A wrapper that parses the base itself must therefore hand back a FAILED result when the base fails -- not
+    parse the input without a base (which succeeds for every absolute input and silently ignores the bad base).  Decided:
+    in each extern "C" function that parses a `base` into a local result and then parses against it, some return is reached
+    only through the edge on which that local is known to be disengaged."""
+    from lib.mustflow import MustFlow
+    n = 0
+    for f in cfuncs(fx):
+        if not f.get("blocks"):
+            continue
+        holders = {}
+        for b in f["blocks"]:
+            for st in b["stmts"]:
+                if st["k"] == "decl":
+                    for v in st["vars"]:
+                        i0 = v.get("init")
+                        if i0 is not None and is_expected_ty(v.get("ty") or "") and \
+                                any(m.get("k") == "call" and (m.get("qname") or "").startswith("ada::parse") for m in X.walk(i0)) and \
+                                any(m.get("k") == "ref" and m.get("kind") == "param" and "base" in (m.get("name") or "") for m in X.walk(i0)):
+                            holders[v["id"]] = v["name"]
+        if not holders:
+            continue
+        mf = MustFlow(f)
+        for vid, nm in holders.items():
+            n += 1
+            pth = "L#%s:%s" % (vid, nm)
+            refused = False
+            for b in f["blocks"]:
+                for i, st in enumerate(b["stmts"]):
+                    if st["k"] == "return":
+                        facts = mf.facts_before(b["id"], i) or frozenset()
+                        if ("dis:" + pth) in facts:
+                            refused = True
+            ctx.check("D5", "%s: a base that does not parse gives a failed result" % f["name"], refused,
+                      "a return behind `!%s`" % nm,
+                      "%s parses the base into `%s` but no return is reached only when that failed: with a bad base the input is parsed "
+                      "without one (or the empty result is dereferenced), where the C++ API has no such call" % (f["name"], nm),
+                      where=f["loc"].replace("/repo/", ""))
+    ctx.floor("D5", n, 1, "wrappers that parse a base themselves")
+
+
 def check(ctx, fx, hx):
     check_returned_storage(ctx, fx)
+    check_failed_base(ctx, fx)
     fs = cfuncs(fx)
     ctx.floor("H1", len(fs), 79, "extern \"C\" ada_* function definitions")
     byname = {f["name"]: f for f in fs}
